@@ -49,13 +49,14 @@ KEYTYPES = {
     'origin': 'pos', 'angles': 'ang', 'targetname': 'name', 'parentname': 'name', 'target': 'name', 'altpath': 'name',
     'movedir': 'ang', 'lightningstart': 'name', 'lightningend': 'name', 'filtername': 'name', 'sourceentityname': 'name',
     'nextkey': 'name', 'hingeaxis': 'pos', 'attach1': 'name', 'template01': 'name',
+    'pitch': 'negpitch',
     'file': 'plain', 'model': 'plain', 'speed': 'plain', 'texture': 'plain', 'wait': 'plain', 'message': 'plain', 'lightcolor': 'plain',
 }
 CLASS_KEYS = {
     'info_target': [], 'prop_dynamic': ['parentname', 'model'], 'path_track': ['target', 'altpath'],
     'env_beam': ['LightningStart', 'LightningEnd', 'texture'], 'ambient_generic': ['SourceEntityName', 'message'],
     'logic_relay': [], 'move_rope': ['NextKey'], 'phys_hinge': ['hingeaxis', 'attach1'], 'point_template': ['Template01'],
-    'env_projectedtexture': ['target', 'lightcolor'],
+    'env_projectedtexture': ['target', 'lightcolor'], 'light_spot': ['pitch'], 'light_environment': ['pitch'],
 }
 BRUSH_CLASSES = {'func_door': ['movedir', 'parentname', 'speed'], 'trigger_multiple': ['filtername', 'wait'], 'func_brush': [],
                  'func_detail': []}
@@ -134,16 +135,18 @@ def _gen_template(r: Rng, idx: int, nested=None) -> dict:
         if r.chance(0.75):
             keys['targetname'] = r.pick(['door', 'relay_$n', 'tgt', '@global', 'part$count-x', '!activator', 'Rope'])
         keys['origin'] = ' '.join(str(float(r.randrange(-256, 256))) for _ in range(3))
-        if r.chance(0.7):
+        if r.chance(0.7) or 'pitch' in (BRUSH_CLASSES if brush else CLASS_KEYS)[cls]:      # Hammer always writes angles next to a pitch key
             keys['angles'] = f'{r.pick([0, 0, 30, -45, 80])} {r.randrange(0, 360)} {r.pick([0, 0, 15, 90])}'
         for k in (BRUSH_CLASSES if brush else CLASS_KEYS)[cls]:
-            if not r.chance(0.7):
+            if not r.chance(0.7) and k != 'pitch':
                 continue
             t = KEYTYPES[k.casefold()]
             if t == 'name':
                 keys[k] = r.pick(['door', 'tgt', 'relay_$n', '', '@global', 'other$tgt-y'])
             elif t == 'ang':
                 keys[k] = f'{r.pick([0, 0, -30])} {r.randrange(0, 360)} 0'
+            elif t == 'negpitch':
+                keys[k] = r.pick(['-45', '30', '0', '-80', '12.5', '-90'])
             elif t == 'pos':
                 keys[k] = ' '.join(str(float(r.randrange(-64, 64))) for _ in range(3))
             else:
@@ -314,6 +317,8 @@ def _transform_additions(ident: dict, m, o):
                     keys[k] = ('ang', mat_mul(ref_matrix(*_nums(v)), m))
                 except Exception:
                     keys[k] = ('raw', v)
+            elif t == 'negpitch':
+                keys[k] = ('negpitch', None)      # judged against the entity's own resulting angles
             else:
                 keys[k] = ('raw', v)
         e['keys'] = keys
@@ -381,6 +386,17 @@ def _compare_law(out: Outcome, want: dict, got: dict, p: dict):
                     ok = False
                 if not ok:
                     fail('position-key', f'entity {ei} ({w["keys"]["classname"][1]}) key {k}: expected {val} got {gv!r}')
+            elif t == 'negpitch':
+                # the light's "pitch" key is the negated pitch of its (rotated) angles
+                try:
+                    gp = float(gv)
+                    ap = _nums(g['keys']['angles'])[0] if 'angles' in g['keys'] else None
+                    d = None if ap is None else abs((-gp - ap + 180.0) % 360.0 - 180.0)
+                    ok = d is None or d < 1e-3       # without an angles key there is nothing to judge the pitch against
+                except Exception:
+                    ok = False
+                if not ok:
+                    fail('pitch-key', f'entity {ei} ({w["keys"]["classname"][1]}) pitch key {gv!r} is not the negated pitch of its angles {g["keys"].get("angles")!r}')
             elif t == 'ang':
                 try:
                     gm = ref_matrix(*_nums(gv))
@@ -576,8 +592,8 @@ def _run_recursive(case, out: Outcome):
         return out
     vmf = VMF()
     top = nest('instances/a.vmf', 2)
-    vmf.create_ent('func_instance', file=top[0]['file'], origin='0 0 0', angles='0 0 0', targetname='top')
-    vmf.create_ent('func_instance', file=top[1]['file'], origin='512 0 0', angles='0 90 0', targetname='top2')
+    vmf.create_ent('func_instance', file=top[0]['file'], origin='0 0 0', angles='0 0 0', targetname='top', fixup_style='0')
+    vmf.create_ent('func_instance', file=top[1]['file'], origin='512 0 0', angles='0 90 0', targetname='top2', fixup_style='0')
     limit = case['recur_limit'] if shape != 'chain' else None    # a chain must collapse completely: use the default limit
     budget = 2500 if limit is None else max(2500, 4 * (br ** (limit + 1)))
     calls = [0]
@@ -615,6 +631,14 @@ def _run_recursive(case, out: Outcome):
         out.violate('no-termination', f'chain|{result}', f'non-recursive chain ended with {result}')
     if shape == 'chain' and result == 'returned' and vmf.by_class['func_instance']:
         out.violate('collapse-incomplete', 'chain', 'func_instance entities left after collapse_all')
+    if shape == 'chain' and result == 'returned':
+        # names follow the (prefix) fixup style of the named top-level instances, through every nesting level
+        for e in vmf.entities:
+            nm = e['targetname']
+            # (an unnamed nested instance stays unnamed when its parent is collapsed and is then auto-named by collapse_all)
+            if nm and nm[0] not in '@!' and not (nm.startswith('top-') or nm.startswith('top2-') or nm.startswith('InstanceAuto')):
+                out.violate('name-fixup', 'collapse_all|prefix', f'after collapse_all an entity of a template placed by the instances "top"/"top2" (prefix style) is named {nm!r}')
+                break
     out.nontrivial = True
     out.sample = {'mode': 'recursive', 'shape': shape, 'branching': br, 'recur_limit': limit, 'result': result, 'collapse_one_calls': calls[0]}
     return out
